@@ -21,6 +21,7 @@ ASSUMPTIONS = [
     "only the documented escapes (\\xHH, \\uHHHH, \\n, \\r, \\t, \\\\, \\\", \\') are in the domain",
 ]
 SYNTAX = (0x22, 0x5C, ord("x"), ord("u"), 0x0A, ord(";"), ord("{"), ord("}"), ord("#"), 0x27, ord("n"), ord("0"))
+BUILDER_BYTES = (b"MZ", b"", b" padded ", b"\x0b\x0c", b'a"b\\', b"\\x41", b"\x00\xff", b"x", b"\t\n")
 MALFORMED = ('"MZ\\xZZ"', '"abc\\x4"', '"PE\\u12"', '"q\\u00"', '"\\x"')
 HIST_ALPHA = (0x5C, 0x22, 0x27, 0x6E, 0x78, 0x34, 0x31, 0x0A, 0x3B, 0xE9)  # \\ " ' n x 4 1 LF ; e-acute
 BOUNDS = {"quick": {"syntax_len": 3, "dict_every": 8}, "thorough": {"syntax_len": 4, "dict_every": 1}}
@@ -239,6 +240,33 @@ def chunk_productions(chunk, acc):
                 continue
             if got != list(lits):
                 acc.fail("C12/production/string-tokens", {"kind": "production", "form": RP.form_id(kind, f), "data": b.hex(), "source": src}, list(lits), got)
+    # the same statements written by the block builder's keyword arguments from bytes values: one statement per
+    # value (or pair), whose literal(s) read back as exactly those bytes
+    from lark import Token
+    from vmc.checks.c11 import KIND_CLASS_NAMES, live_alias
+
+    if kind in KIND_CLASS_NAMES:
+        cls = getattr(cp, KIND_CLASS_NAMES[kind])
+        for f in forms:
+            st = ("s", f[1], f[2], tuple(['"v"'] * f[3]))
+            alias = live_alias(cp, kind, st)
+            if not alias.isidentifier() or f[3] > 2 or (f[3] == 2 and not callable(getattr(cls, alias, None))):
+                continue
+            for b in BUILDER_BYTES:
+                acc.transitions += 1
+                acc.case(("builder", f[2], b), nontrivial=True)
+                want = [b] if f[3] == 1 else [b, b"k" + b]
+                case = {"kind": "builder", "block": KIND_CLASS_NAMES[kind], "keyword": alias, "data": b.hex()}
+                try:
+                    blk = cls(**{alias: b if f[3] == 1 else [(b, b"k" + b)]})
+                    stmts = blk.tree.children
+                    lits = string_tokens(blk.tree)
+                    got = [cp.string_token_to_bytes(Token("STRING", x)) for x in lits]
+                except Exception as e:  # noqa
+                    acc.fail("C12/builder/keyword-exception", case, [w.hex() for w in want], f"{type(e).__name__}: {str(e)[:200]}")
+                    continue
+                if len(stmts) != 1 or got != want:
+                    acc.fail("C12/builder/keyword-value", case, {"statements": 1, "values": [w.hex() for w in want]}, {"statements": len(stmts), "values": [g.hex() if isinstance(g, bytes) else repr(g) for g in got]})
     acc.sample({"block_kind": kind, "forms": [RP.form_id(kind, f) for f in forms][:6], "strings": len(strings)})
 
 
@@ -383,6 +411,13 @@ def replay(case):
             return {"ok": got == exp, "expected": exp.hex(), "observed": got.hex() if isinstance(got, bytes) else repr(got)}
         except Exception as e:  # noqa
             return {"ok": False, "expected": "bytes", "observed": f"{type(e).__name__}: {e}"}
+    elif case["kind"] == "builder":
+        kind = next(k for k, c in __import__("vmc.checks.c11", fromlist=["x"]).KIND_CLASS_NAMES.items() if c == case["block"])
+        for k, c in __import__("vmc.checks.c11", fromlist=["x"]).KIND_CLASS_NAMES.items():
+            if c == case["block"]:
+                chunk_productions({"blockkind": k}, a)
+        v = next((v for v in a.violations if v["case"].get("keyword") == case["keyword"] and v["case"].get("data") == case["data"]), None)
+        return {"ok": v is None, "expected": v["expected"] if v else None, "observed": v["observed"] if v else None}
     elif case["kind"] == "production":
         try:
             tree = cp.c2profile_parser.parse(case["source"])
